@@ -202,6 +202,54 @@ def match_acq_stmt(s):
 
 # --------------------------------------------------------------------------
 
+def _mk(src, k, **kw):
+    from .cfront import N
+    n = N()
+    n.k = k
+    for a in ("f", "l", "c", "le", "sf", "sl"):
+        setattr(n, a, getattr(src, a))
+    n.mo = "Py_CLEAR"
+    n.kids = ()
+    for key, val in kw.items():
+        setattr(n, key, val)
+    return n
+
+
+_CLEAR_SEQ = [0]
+
+
+def _lower_py_clear(s):
+    """[tmp = op;  op = NULL;  Py_XDECREF(tmp);] as IR statements, or None when
+    the expansion is not the one of CPython's Py_CLEAR"""
+    op = None
+    for d in s.walk():
+        if d.k == "VarDecl" and d.kids:
+            init = d.kids[-1]
+            x = init
+            while x is not None and x.k in ("ParenExpr", "ImplicitCastExpr", "CStyleCastExpr") and x.kids:
+                x = x.kids[-1]
+            if x is not None and x.k == "UnaryOperator" and x.v == "&" and x.kids:
+                op = x.kids[0]
+                while op.k == "ParenExpr" and op.kids:
+                    op = op.kids[0]
+                break
+    if op is None:
+        return None
+    _CLEAR_SEQ[0] += 1
+    tmp = "__cleared%d" % _CLEAR_SEQ[0]
+    ty = op.t or "PyObject *"
+    decl = _mk(s, "DeclStmt", kids=(_mk(s, "VarDecl", n=tmp, t=ty, kids=(op,)),))
+    null = _mk(s, "ImplicitCastExpr", v="NullToPointer", t=ty,
+               kids=(_mk(s, "IntegerLiteral", v="0", t="int"),))
+    store = _mk(s, "BinaryOperator", v="=", t=ty, kids=(op, null))
+    fn = _mk(s, "ImplicitCastExpr", v="FunctionToPointerDecay",
+             kids=(_mk(s, "DeclRefExpr", n="Py_XDECREF", rk="FunctionDecl", t="void (PyObject *)"),))
+    arg = _mk(s, "DeclRefExpr", n=tmp, rk="VarDecl", t=ty)
+    call = _mk(s, "CallExpr", t="void", kids=(fn, arg))
+    call.mo = "Py_XDECREF"
+    return [decl, store, call]
+
+
 class CFG(object):
     def __init__(self, fn):
         self.fn = fn                # N FunctionDecl
@@ -315,6 +363,12 @@ class CFG(object):
             body = self._stmt(s.kids[-1], head, nxt, head)
             head.succ.append(("next", self._cond(s.kids[0], body, nxt, s)))
             return head
+        if k == "DoStmt" and s.mo == "Py_CLEAR":
+            # Py_CLEAR(op) expands to pointer juggling through temporaries; what it
+            # means is:  tmp = op;  op = NULL;  Py_XDECREF(tmp);   (detach, then release)
+            lowered = _lower_py_clear(s)
+            if lowered is not None:
+                return self._seq(lowered, nxt, brk, cont)
         if k == "DoStmt":
             # kids: body, cond
             condj = self._new("join", src=s)
